@@ -217,6 +217,8 @@ func (s *FastModularNetworkSolver) recursiveActivateNode(currentNode int) (res b
 	s.inActivation[currentNode] = false
 
 	signal := s.neuronSignalsBeingProcessed[currentNode]
+	// leave the accumulator empty for the forward steps, which add to it
+	s.neuronSignalsBeingProcessed[currentNode] = 0
 	if s.biasNeuronCount > 0 {
 		// append BIAS value to the signal if appropriate
 		signal += s.biasList[currentNode]
